@@ -293,9 +293,12 @@ int a_buf_store(void *ctx_, a_size idx, void *ptr, a_size num, int (*copy)(void 
 int a_buf_erase(void *ctx_, a_size idx, a_size num, void (*dtor)(void *))
 {
     int rc = A_SUCCESS;
-    a_size const n = idx + num;
+    a_size n;
     a_buf *const ctx = (a_buf *)ctx_;
     a_byte *const buf = (a_byte *)(ctx + 1);
+    if (idx >= ctx->num_) { return A_OBOUNDS; }
+    if (num > ctx->num_ - idx) { num = ctx->num_ - idx; }
+    n = idx + num;
     if (dtor)
     {
         a_byte *p = buf + ctx->siz_ * idx;
